@@ -107,26 +107,33 @@ Qed.
 
 (** * Association lists *)
 
+Lemma lookup_remove_same {A} k (l : list (name * A)) : lookup k (remove_assoc k l) = None.
+Proof.
+  induction l as [|[k2 x] l IH]; simpl; [reflexivity|].
+  destruct (String.eqb_spec k k2); simpl; [assumption|].
+  destruct (String.eqb_spec k k2); [congruence|assumption].
+Qed.
+
+Lemma lookup_remove_other {A} k k' (l : list (name * A)) :
+  k <> k' -> lookup k' (remove_assoc k l) = lookup k' l.
+Proof.
+  intros Hne. induction l as [|[k2 x] l IH]; simpl; [reflexivity|].
+  destruct (String.eqb_spec k k2) as [->|Hk]; simpl.
+  - destruct (String.eqb_spec k' k2); [congruence|assumption].
+  - destruct (String.eqb_spec k' k2); [reflexivity|assumption].
+Qed.
+
+Lemma lookup_set_same {A} k (v : option A) l : lookup k (set_assoc k v l) = v.
+Proof.
+  unfold set_assoc. destruct v; simpl; [now rewrite String.eqb_refl|apply lookup_remove_same].
+Qed.
+
 Lemma lookup_set_other {A} k k' (v : option A) l :
   k <> k' -> lookup k' (set_assoc k v l) = lookup k' l.
 Proof.
-  intros Hne. induction l as [|[k2 x] l IH]; simpl.
-  - destruct v; simpl; [|reflexivity].
-    destruct (String.eqb_spec k' k); [congruence|reflexivity].
-  - destruct (String.eqb_spec k k2) as [->|Hk].
-    + destruct v; simpl.
-      * destruct (String.eqb_spec k' k2); [congruence|reflexivity].
-      * destruct (String.eqb_spec k' k2); [congruence|reflexivity].
-    + simpl. destruct (String.eqb_spec k' k2); [reflexivity|assumption].
-Qed.
-
-Lemma lookup_set_some {A} k (x : A) l : lookup k (set_assoc k (Some x) l) = Some x.
-Proof.
-  induction l as [|[k2 y] l IH]; simpl.
-  - now rewrite String.eqb_refl.
-  - destruct (String.eqb_spec k k2) as [->|Hk]; simpl.
-    + now rewrite String.eqb_refl.
-    + destruct (String.eqb_spec k k2); [congruence|assumption].
+  intros Hne. unfold set_assoc. destruct v; simpl.
+  - destruct (String.eqb_spec k' k); [congruence|]. now apply lookup_remove_other.
+  - now apply lookup_remove_other.
 Qed.
 
 Lemma str_length_append (a b : string) :
@@ -832,3 +839,425 @@ Section Key.
       rewrite lookup_spec_outs. pose proof (Hg i Hi) as E. apply mem_In in Hi. now rewrite Hi, E.
   Qed.
 End Key.
+
+(** * The cache invariant *)
+
+(** A cache entry stands for a successful execution of a rule in some
+    (earlier) configuration: its key is that rule's action digest there, and
+    if the recorded output still carries the recorded stamp, its content is
+    what that execution wrote. *)
+Definition entry_ok (out : list (name * (content * N))) (d : digest) (b : built) : Prop :=
+  exists L0 rules0 src0 x0 n0 r0 f,
+    wfG L0 rules0 src0 /\ find_node x0 L0 = Some n0 /\ ntype n0 = TRule /\
+    find_rule x0 rules0 = Some r0 /\ sdig L0 rules0 src0 f x0 = Some d /\
+    match r_kind r0 with
+    | KFileSet _ _ _ =>
+        exists l s, b = [(fileset_out x0, s)] /\
+                    scont L0 rules0 src0 f x0 = Some (inl l) /\
+                    (forall c, lookup (fileset_out x0) out = Some (c, s) -> c = CList l)
+    | KBundle _ => b = []
+    end.
+
+Definition cache_inv (out : list (name * (content * N))) (cache : list (digest * built)) : Prop :=
+  forall d b, cache_get d cache = Some b -> entry_ok out d b.
+
+(** Every stamp in out/ and in the cache is older than the clock. *)
+Definition fresh (out : list (name * (content * N))) (cache : list (digest * built)) (clock : N) : Prop :=
+  (forall o c s, lookup o out = Some (c, s) -> (s < clock)%N) /\
+  (forall d b o s, cache_get d cache = Some b -> In (o, s) b -> (s < clock)%N).
+
+Lemma entry_ok_stamp out d b o s : entry_ok out d b -> In (o, s) b ->
+  exists x0, o = fileset_out x0.
+Proof.
+  intros (L0 & rules0 & src0 & x0 & n0 & r0 & f & _ & _ & _ & _ & _ & Hk) Hin.
+  destruct (r_kind r0).
+  - destruct Hk as (l & s' & -> & _). destruct Hin as [[= <- <-]|[]]. eauto.
+  - subst b. destruct Hin.
+Qed.
+
+(** an entry only looks at the recorded outputs with the recorded stamps *)
+Lemma entry_ok_out out out' d b :
+  entry_ok out d b ->
+  (forall o s, In (o, s) b -> forall c, lookup o out' = Some (c, s) -> lookup o out = Some (c, s)) ->
+  entry_ok out' d b.
+Proof.
+  intros (L0 & rules0 & src0 & x0 & n0 & r0 & f & A & B & C & D & E & Hk) Hsame.
+  exists L0, rules0, src0, x0, n0, r0, f.
+  split; [exact A|]. split; [exact B|]. split; [exact C|]. split; [exact D|]. split; [exact E|].
+  destruct (r_kind r0); [|assumption].
+  destruct Hk as (l & s & -> & Hs & Hc). exists l, s.
+  split; [reflexivity|]. split; [exact Hs|].
+  intros c' Hl. apply Hc. apply (Hsame _ _ (or_introl eq_refl)). exact Hl.
+Qed.
+
+(** writing an output (by a rule or by tampering) with the next stamp *)
+Lemma cache_inv_write out cache clock o c :
+  cache_inv out cache -> fresh out cache clock ->
+  cache_inv (set_assoc o (Some (c, clock)) out) cache.
+Proof.
+  intros Hinv [_ Hf] d b Hget. apply (entry_ok_out out); [auto|].
+  intros o' s Hin c' Hl. destruct (String.eqb_spec o o') as [->|Hne].
+  - rewrite lookup_set_same in Hl. injection Hl as _ <-.
+    exfalso. specialize (Hf d _ o' clock Hget Hin). lia.
+  - now rewrite lookup_set_other in Hl by assumption.
+Qed.
+
+Lemma cache_inv_delete out cache o :
+  cache_inv out cache -> cache_inv (set_assoc o None out) cache.
+Proof.
+  intros Hinv d b Hget. apply (entry_ok_out out); [auto|].
+  intros o' s Hin c' Hl. destruct (String.eqb_spec o o') as [->|Hne].
+  - rewrite lookup_set_same in Hl. discriminate.
+  - now rewrite lookup_set_other in Hl by assumption.
+Qed.
+
+Lemma cache_get_remove_some d d' c b :
+  cache_get d' (cache_remove d c) = Some b -> cache_get d' c = Some b /\ d <> d'.
+Proof.
+  intros H. destruct (digest_eqb d d') eqn:E.
+  - apply digest_eqb_spec in E. subst. rewrite cache_get_remove_same in H. discriminate.
+  - apply digest_eqb_false in E. rewrite cache_get_remove_other in H by assumption. auto.
+Qed.
+
+Lemma cache_inv_remove out cache d : cache_inv out cache -> cache_inv out (cache_remove d cache).
+Proof. intros Hinv d' b H. apply cache_get_remove_some in H. destruct H. eauto. Qed.
+
+Lemma cache_inv_put out cache d b :
+  cache_inv out cache -> entry_ok out d b -> cache_inv out (cache_put d b cache).
+Proof.
+  intros Hinv He d' b' H. destruct (digest_eqb d d') eqn:E.
+  - apply digest_eqb_spec in E. subst. rewrite cache_get_put_same in H. now injection H as <-.
+  - apply digest_eqb_false in E. rewrite cache_get_put_other in H by assumption. eauto.
+Qed.
+
+Lemma fresh_write out cache clock o c :
+  fresh out cache clock -> fresh (set_assoc o (Some (c, clock)) out) cache (N.succ clock).
+Proof.
+  intros [H1 H2]. split.
+  - intros o' c' s Hl. destruct (String.eqb_spec o o') as [->|Hne].
+    + rewrite lookup_set_same in Hl. injection Hl as _ <-. lia.
+    + rewrite lookup_set_other in Hl by assumption. specialize (H1 _ _ _ Hl). lia.
+  - intros d b o' s Hg Hin. specialize (H2 _ _ _ _ Hg Hin). lia.
+Qed.
+
+Lemma fresh_delete out cache clock o :
+  fresh out cache clock -> fresh (set_assoc o None out) cache (N.succ clock).
+Proof.
+  intros [H1 H2]. split.
+  - intros o' c' s Hl. destruct (String.eqb_spec o o') as [->|Hne].
+    + rewrite lookup_set_same in Hl. discriminate.
+    + rewrite lookup_set_other in Hl by assumption. specialize (H1 _ _ _ Hl). lia.
+  - intros d b o' s Hg Hin. specialize (H2 _ _ _ _ Hg Hin). lia.
+Qed.
+
+Lemma fresh_remove out cache clock d : fresh out cache clock -> fresh out (cache_remove d cache) clock.
+Proof.
+  intros [H1 H2]. split; [assumption|].
+  intros d' b o s Hg Hin. apply cache_get_remove_some in Hg. destruct Hg. eauto.
+Qed.
+
+Lemma fresh_put out cache clock d b :
+  fresh out cache clock -> (forall o s, In (o, s) b -> (s < clock)%N) ->
+  fresh out (cache_put d b cache) clock.
+Proof.
+  intros [H1 H2] Hb. split; [assumption|].
+  intros d' b' o s Hg Hin. destruct (digest_eqb d d') eqn:E.
+  - apply digest_eqb_spec in E. subst. rewrite cache_get_put_same in Hg. injection Hg as <-.
+    now apply (Hb o s).
+  - apply digest_eqb_false in E. rewrite cache_get_put_other in Hg by assumption. eauto.
+Qed.
+
+Lemma lookup_In_pair {A} k (l : list (name * A)) v : lookup k l = Some v -> In (k, v) l.
+Proof.
+  induction l as [|[k' v'] l IH]; simpl; [discriminate|].
+  destruct (String.eqb_spec k k') as [->|Hne]; [intros [= ->]; now left|intros H; right; auto].
+Qed.
+
+(** * One build: invariants of [buildNode] *)
+
+Lemma rdigest_of_kind r r0 :
+  rdigest_of r = rdigest_of r0 ->
+  r_name r = r_name r0 /\
+  (forall f s i, r_kind r = KFileSet f s i <-> r_kind r0 = KFileSet f s i) /\
+  ((exists ds, r_kind r = KBundle ds) <-> (exists ds, r_kind r0 = KBundle ds)).
+Proof.
+  unfold rdigest_of. destruct (r_kind r), (r_kind r0); try discriminate.
+  - intros [= -> -> -> ->]. split; [reflexivity|]. split; [tauto|].
+    split; intros [ds H]; discriminate.
+  - intros [= ->]. split; [reflexivity|]. split.
+    + intros f s i. split; discriminate.
+    + split; eauto.
+Qed.
+
+Arguments set_assoc : simpl never.
+Arguments cache_put : simpl never.
+Arguments cache_remove : simpl never.
+
+Section Run.
+  Variables (L : list node) (rules : list rule) (src : list (name * stat)).
+  Hypothesis HG : wfG L rules src.
+
+  Definition memo_ok (memo : list (name * digest)) : Prop :=
+    exists F, forall nm d, In (nm, d) memo -> sdig L rules src F nm = Some d.
+
+  Definition outs_ok (memo : list (name * digest)) (out : list (name * (content * N))) : Prop :=
+    exists F, forall nm d n r files sels incs,
+      In (nm, d) memo -> find_node nm L = Some n -> ntype n = TRule ->
+      find_rule nm rules = Some r -> r_kind r = KFileSet files sels incs ->
+      exists l s, scont L rules src F nm = Some (inl l) /\
+                  lookup (fileset_out nm) out = Some (CList l, s).
+
+  Record binv (st : bstate) : Prop := mkBinv {
+    bi_memo : memo_ok (b_memo st);
+    bi_outs : outs_ok (b_memo st) (b_out st);
+    bi_cache : cache_inv (b_out st) (b_cache st);
+    bi_fresh : fresh (b_out st) (b_cache st) (b_clock st)
+  }.
+
+  Lemma dep_digests_collect memo deps :
+    dep_digests memo deps = collect (fun d => lookup d memo) deps.
+  Proof. reflexivity. Qed.
+
+  Lemma memo_collect memo F deps dd :
+    (forall nm d, In (nm, d) memo -> sdig L rules src F nm = Some d) ->
+    dep_digests memo deps = Some dd -> collect (sdig L rules src F) deps = Some dd.
+  Proof.
+    intros HF H. rewrite dep_digests_collect in H.
+    eapply collect_mono; [|exact H]. intros d x _ Hx. apply HF. now apply lookup_In_pair.
+  Qed.
+
+  Lemma memo_ok_add memo x d :
+    memo_ok memo ->
+    (forall F, (forall nm d', In (nm, d') memo -> sdig L rules src F nm = Some d') ->
+               sdig L rules src (S F) x = Some d) ->
+    memo_ok ((x, d) :: memo).
+  Proof.
+    intros [F HF] Hx. exists (S F). intros nm d' [[= <- <-]|Hin]; [now apply Hx|].
+    apply sdig_S. now apply HF.
+  Qed.
+
+  (** what a successful [fileSet.build] writes is the configuration's content *)
+  Lemma exec_content_spec memo out nm r files sels incs fl l :
+    outs_ok memo out ->
+    (forall i, In i incs -> exists di, In (i, di) memo) ->
+    find_rule nm rules = Some r -> r_kind r = KFileSet files sels incs ->
+    expand_files (map fst src) files sels = Some fl ->
+    fileset_content L rules src out fl incs = inl l ->
+    exists F1, scont L rules src F1 nm = Some (inl l).
+  Proof.
+    intros [F HF] Hmemo Hr Hk Hex Hc. exists (S F). simpl. rewrite Hr, Hk, Hex. f_equal.
+    rewrite <- Hc. apply fileset_content_ext; [eapply wg_noout; eauto|].
+    intros i Hi. unfold content_at.
+    destruct (fileset_content_ok _ _ _ _ _ _ _ Hc i Hi)
+      as (n & ri & fs' & ss' & is' & li & s & Hn & Hty & Hri & Hki & Hl).
+    destruct (Hmemo i Hi) as [di Hdi].
+    destruct (HF i di n ri fs' ss' is' Hdi Hn Hty Hri Hki) as (l' & s' & Hsc & Hl').
+    rewrite Hl in Hl'. injection Hl' as <- <-.
+    rewrite Hl, lookup_spec_outs. apply mem_In in Hi. now rewrite Hi, Hsc.
+  Qed.
+
+  Lemma outs_ok_add_other memo out x d :
+    outs_ok memo out ->
+    (forall n r files sels incs, find_node x L = Some n -> ntype n = TRule ->
+        find_rule x rules = Some r -> r_kind r = KFileSet files sels incs -> False) ->
+    outs_ok ((x, d) :: memo) out.
+  Proof.
+    intros [F HF] Hno. exists F. intros nm d' n r files sels incs [[= <- <-]|Hin] Hn Hty Hr Hk.
+    - exfalso. eauto.
+    - eauto.
+  Qed.
+
+  Lemma outs_ok_add_fs memo out x d l s g :
+    outs_ok memo out ->
+    scont L rules src g x = Some (inl l) -> lookup (fileset_out x) out = Some (CList l, s) ->
+    outs_ok ((x, d) :: memo) out.
+  Proof.
+    intros [F HF] Hg Hl. exists (Nat.max F g).
+    intros nm d' n r files sels incs [[= <- <-]|Hin] Hn Hty Hr Hk.
+    - exists l, s. split; [|assumption].
+      apply (scont_mono L rules src HG g (Nat.max F g)); [lia|assumption].
+    - destruct (HF nm d' n r files sels incs Hin Hn Hty Hr Hk) as (l' & s' & A & B).
+      exists l', s'. split; [|assumption].
+      apply (scont_mono L rules src HG F (Nat.max F g)); [lia|assumption].
+  Qed.
+
+  (** [outs_ok] after the rule [x] wrote its output *)
+  Lemma outs_ok_write memo out x l g clock :
+    outs_ok memo out ->
+    scont L rules src g x = Some (inl l) ->
+    outs_ok memo (set_assoc (fileset_out x) (Some (CList l, clock)) out).
+  Proof.
+    intros [F HF] Hg. exists (Nat.max F g).
+    intros nm d' n r files sels incs Hin Hn Hty Hr Hk.
+    destruct (String.eqb_spec x nm) as [->|Hne].
+    - exists l, clock. split; [|apply lookup_set_same].
+      apply (scont_mono L rules src HG g (Nat.max F g)); [lia|assumption].
+    - destruct (HF nm d' n r files sels incs Hin Hn Hty Hr Hk) as (l' & s' & A & B).
+      exists l', s'. split; [apply (scont_mono L rules src HG F (Nat.max F g)); [lia|assumption]|].
+      rewrite lookup_set_other; [assumption|]. intros E. apply fileset_out_inj in E. congruence.
+  Qed.
+
+  Definition valid_cached (out : list (name * (content * N))) (cache : list (digest * built))
+             (d : digest) : Prop :=
+    exists b, cache_get d cache = Some b /\ same_built out b = true.
+
+  Lemma same_built_single out o s :
+    same_built out [(o, s)] = true <-> exists c, lookup o out = Some (c, s).
+  Proof.
+    unfold same_built. simpl. rewrite andb_true_r.
+    destruct (lookup o out) as [[c s']|]; split.
+    - intros H. apply N.eqb_eq in H. subst. eauto.
+    - intros [c' [= -> ->]]. apply N.eqb_refl.
+    - discriminate.
+    - intros [c' H]. discriminate.
+  Qed.
+
+  Lemma node_outs_fs x r files sels incs :
+    find_rule (nname x) rules = Some r -> r_kind r = KFileSet files sels incs ->
+    node_outs rules x = [fileset_out (nname x)].
+  Proof. intros Hr Hk. unfold node_outs. now rewrite Hr, Hk. Qed.
+
+  Lemma node_outs_bundle x r ds :
+    find_rule (nname x) rules = Some r -> r_kind r = KBundle ds -> node_outs rules x = [].
+  Proof. intros Hr Hk. unfold node_outs. now rewrite Hr, Hk. Qed.
+
+  (** The digest [visit] computes for a rule node is the configuration's. *)
+  Lemma visit_digest x r memo dd F :
+    find_node (nname x) L = Some x -> ntype x = TRule -> find_rule (nname x) rules = Some r ->
+    (forall nm d, In (nm, d) memo -> sdig L rules src F nm = Some d) ->
+    dep_digests memo (ndeps x) = Some dd ->
+    sdig L rules src (S F) (nname x)
+    = Some (DRuleD (rdigest_of r) (canon_deps dd) (node_outs rules x)).
+  Proof.
+    intros Hx Hty Hr HF Hdd. simpl. rewrite Hx, Hty, Hr.
+    now rewrite (memo_collect memo F (ndeps x) dd HF Hdd).
+  Qed.
+
+  (** A cache hit hands over the configuration's content (the key lemma). *)
+  Lemma hit_content st x r files sels incs d F b :
+    cache_inv (b_out st) (b_cache st) ->
+    find_node (nname x) L = Some x -> ntype x = TRule -> find_rule (nname x) rules = Some r ->
+    r_kind r = KFileSet files sels incs ->
+    sdig L rules src F (nname x) = Some d ->
+    cache_get d (b_cache st) = Some b -> same_built (b_out st) b = true ->
+    exists g l s, scont L rules src g (nname x) = Some (inl l) /\
+                  lookup (fileset_out (nname x)) (b_out st) = Some (CList l, s).
+  Proof.
+    intros Hinv Hx Hty Hr Hk Hd Hget Hsame.
+    destruct (Hinv d b Hget) as (L0 & rules0 & src0 & x0 & n0 & r0 & f0 & HG0 & Hn0 & Hty0 & Hr0 & Hd0 & Hb).
+    (* same rule on both sides *)
+    destruct (sdig_of_rule _ _ _ _ _ _ _ _ Hx Hty Hr Hd) as (f1 & dd & -> & _ & Ed).
+    destruct (sdig_of_rule _ _ _ _ _ _ _ _ Hn0 Hty0 Hr0 Hd0) as (f1' & dd0 & -> & _ & Ed0).
+    assert (Erd : rdigest_of r = rdigest_of r0) by congruence.
+    destruct (rdigest_of_kind _ _ Erd) as (Enm & Hfs & _).
+    rewrite (find_rule_name _ _ _ Hr), (find_rule_name _ _ _ Hr0) in Enm.
+    pose proof (proj1 (Hfs _ _ _) Hk) as Hk0. rewrite Hk0 in Hb.
+    destruct Hb as (l & s & -> & Hsc & Hc).
+    apply same_built_single in Hsame. destruct Hsame as [c Hl].
+    pose proof (Hc c Hl) as ->.
+    destruct (key_lemma L rules src L0 rules0 src0 HG HG0 _ _ _ Hd _ _ Hd0 _ _ _ _ _ Hx Hty Hr Hk _ _ Hsc)
+      as [g Hg].
+    exists g, l, s. split; [assumption|]. now rewrite Enm.
+  Qed.
+
+  Theorem visit_inv x st :
+    binv st -> find_node (nname x) L = Some x ->
+    match visit L rules src x st with
+    | inl st' => binv st'
+    | inr (st', _) => cache_inv (b_out st') (b_cache st') /\
+                      fresh (b_out st') (b_cache st') (b_clock st')
+    end.
+  Proof.
+    intros [Hm Ho Hc Hf] Hx. unfold visit.
+    destruct (dep_digests (b_memo st) (ndeps x)) as [dd|] eqn:Hdd; [|split; assumption].
+    destruct (ntype x) eqn:Hty.
+    - (* a source file *)
+      destruct (lookup (nname x) src) as [s|] eqn:Hs; [|split; assumption].
+      constructor; simpl; auto.
+      + apply memo_ok_add; [assumption|]. intros F _. simpl. now rewrite Hx, Hty, Hs.
+      + apply outs_ok_add_other; [assumption|]. intros n r fs ss is' Hn Ht. congruence.
+    - (* a rule *)
+      destruct (find_rule (nname x) rules) as [r|] eqn:Hr; [|split; assumption].
+      set (d := DRuleD (rdigest_of r) (canon_deps dd) (node_outs rules x)).
+      assert (Hmemo' : memo_ok ((nname x, d) :: b_memo st)).
+      { apply memo_ok_add; [assumption|]. intros F HF.
+        exact (visit_digest x r (b_memo st) dd F Hx Hty Hr HF Hdd). }
+      destruct (match cache_get d (b_cache st) with
+                | Some b => same_built (b_out st) b
+                | None => false
+                end) eqn:Hhit.
+      + (* cache hit *)
+        destruct (cache_get d (b_cache st)) as [b|] eqn:Hget; [|discriminate].
+        constructor; simpl; auto.
+        destruct (r_kind r) as [files sels incs|ds] eqn:Hk.
+        * destruct Hm as [F HF].
+          pose proof (visit_digest x r _ dd F Hx Hty Hr HF Hdd) as Hd. fold d in Hd.
+          destruct (hit_content st x r files sels incs d (S F) b Hc Hx Hty Hr Hk Hd Hget Hhit)
+            as (g & l & s & Hg & Hl).
+          eapply outs_ok_add_fs; eauto.
+        * apply outs_ok_add_other; [assumption|]. intros n r' fs ss is' Hn Ht Hr' Hk'. congruence.
+      + (* no valid entry: remove, log, execute, store *)
+        clear Hhit.
+        assert (Hc1 : cache_inv (b_out st) (cache_remove d (b_cache st))) by now apply cache_inv_remove.
+        assert (Hf1 : fresh (b_out st) (cache_remove d (b_cache st)) (b_clock st)) by now apply fresh_remove.
+        pose proof (find_rule_name _ _ _ Hr) as Hrn.
+        unfold exec_rule, log. cbn [b_out b_cache b_clock b_memo b_exec].
+        destruct (r_kind r) as [files sels incs|ds] eqn:Hk.
+        * (* a file set *)
+          destruct (expand_files (map fst src) files sels) as [fl|] eqn:Hex; [|split; assumption].
+          destruct (fileset_content L rules src (b_out st) fl incs) as [l|e] eqn:Hcont;
+            [|split; assumption].
+          rewrite Hrn, (node_outs_fs x r files sels incs Hr Hk).
+          assert (Hnb : new_built (set_assoc (fileset_out (nname x)) (Some (CList l, b_clock st)) (b_out st))
+                                  [fileset_out (nname x)]
+                        = inl [(fileset_out (nname x), b_clock st)]).
+          { unfold new_built. cbn [fold_right]. now rewrite lookup_set_same. }
+          rewrite Hnb.
+          (* the content written is the configuration's *)
+          assert (Hincs : forall i, In i incs -> exists di, In (i, di) (b_memo st)).
+          { intros i Hi.
+            assert (Hin : In x L) by (apply find_node_Some in Hx; tauto).
+            destruct (wg_rule _ _ _ HG x Hin Hty) as (r' & Hr' & Hdeps). rewrite Hr in Hr'.
+            injection Hr' as <-. rewrite Hk in Hdeps. destruct Hdeps as (fl' & _ & Hnd).
+            rewrite dep_digests_collect in Hdd.
+            destruct (collect_some_in _ _ _ i Hdd) as [di Hdi];
+              [rewrite Hnd; apply in_app_iff; now right|].
+            exists di. now apply lookup_In_pair. }
+          destruct (exec_content_spec _ _ (nname x) r files sels incs fl l Ho Hincs Hr Hk Hex Hcont)
+            as [g Hg].
+          constructor; simpl.
+          -- exact Hmemo'.
+          -- eapply outs_ok_add_fs; [eapply outs_ok_write; eauto|exact Hg|apply lookup_set_same].
+          -- apply cache_inv_put.
+             ++ apply cache_inv_write with (clock := b_clock st); assumption.
+             ++ destruct Hm as [F HF].
+                exists L, rules, src, (nname x), x, r, (Nat.max (S F) g).
+                split; [exact HG|]. split; [exact Hx|]. split; [exact Hty|]. split; [exact Hr|].
+                split.
+                { apply (sdig_mono L rules src (S F)); [lia|].
+                  exact (visit_digest x r _ dd F Hx Hty Hr HF Hdd). }
+                rewrite Hk. exists l, (b_clock st). split; [reflexivity|]. split.
+                { apply (scont_mono L rules src HG g); [lia|assumption]. }
+                intros c Hl. rewrite lookup_set_same in Hl. now injection Hl as <-.
+          -- apply fresh_put.
+             ++ apply fresh_write. assumption.
+             ++ intros o s [[= <- <-]|[]]. lia.
+        * (* a bundle *)
+          rewrite (node_outs_bundle x r ds Hr Hk). cbn [new_built fold_right].
+          constructor; simpl.
+          -- exact Hmemo'.
+          -- apply outs_ok_add_other; [assumption|]. intros n r' fs ss is' Hn Ht Hr' Hk'. congruence.
+          -- apply cache_inv_put; [assumption|].
+             destruct Hm as [F HF].
+             exists L, rules, src, (nname x), x, r, (S F).
+             split; [exact HG|]. split; [exact Hx|]. split; [exact Hty|]. split; [exact Hr|].
+             split; [exact (visit_digest x r _ dd F Hx Hty Hr HF Hdd)|].
+             rewrite Hk. reflexivity.
+          -- apply fresh_put; [assumption|]. intros o s [].
+    - (* an output *)
+      constructor; simpl; auto.
+      + apply memo_ok_add; [assumption|]. intros F HF. simpl. rewrite Hx, Hty.
+        now rewrite (memo_collect (b_memo st) F (ndeps x) dd HF Hdd).
+      + apply outs_ok_add_other; [assumption|]. intros n r fs ss is' Hn Ht. congruence.
+  Qed.
+End Run.
